@@ -262,8 +262,22 @@ def run(ctx):
             ctx.ob("R4", "reference-follow-mode", ok, "-newer must stat its reference with the command line's follow mode (config.follow)", fn=fn, where=prim.site(fn, a.entry), how="provenance slice")
     # ---- R5 -newerXY ------------------------------------------------------------------------------------------------
     om = ctx.fn("R5", T + "NewerOptionMatcher::matches_impl")
-    on = ctx.fn("R5", T + "NewerOptionMatcher::new")
+    on = ctx.fn("R5", T + "NewerOptionMatcher::with_follow")
     ref_field = None
+    if on is not None:
+        # the reference file is examined like a starting point: through the follow mode handed in, never a fixed stat()
+        rm = [c for b, t in on.calls() for c in [t] if (t.callee or "").endswith("Follow::root_metadata")]
+        raw = [t.callee for b, t in on.calls() if (t.callee or "") in ("std::fs::metadata", "std::fs::symlink_metadata", "std::path::Path::metadata", "std::path::Path::symlink_metadata")]
+        okf = len(rm) == 1 and not raw
+        if okf:
+            fo = prim.origin_of_operand(on, rm[0].args[0]).strip()
+            po = prim.origin_of_operand(on, rm[0].args[1])
+            okf = fo.k == "arg" and fo.a["name"] == "follow" and any(x.k == "arg" and x.a["name"] == "path_to_file" for x in po.walk())
+        ctx.ob("R5", "reference-follow-mode:newerXY", okf, "the reference file of -newerXY/-anewer/-cnewer is examined through %s (raw stat calls: %s); oracle: Follow::root_metadata(follow, path_to_file) with the follow mode handed in by the parser" % ([prim.short(t.callee) for t in rm], raw), fn=on, how="call sites + provenance")
+    plain_new = ctx.prog.fns.get(T + "NewerOptionMatcher::new")
+    if plain_new is not None:
+        o = prim.origin_of_local(plain_new, 0).strip()
+        ctx.ob("R5", "new-delegates", o.k == "call" and o.a["callee"] == T + "NewerOptionMatcher::with_follow" and [k.strip().k for k in o.kids[:3]] == ["arg", "arg", "arg"], "NewerOptionMatcher::new = %s; oracle: with_follow(x, y, path, ..)" % o.fmt()[:160], fn=plain_new, how="provenance slice", nontrivial=False)
     if on is not None:
         for b in on.reachable():
             for s in on.blocks[b].stmts:
@@ -304,10 +318,12 @@ def run(ctx):
     if arms:
         a = arms.get(("_",))
         if a is not None:
-            cs = a.calls_matching(T + "NewerOptionMatcher::new")
-            ok = len(cs) == 1
+            cs = a.calls_matching(T + "NewerOptionMatcher::with_follow")
+            ok = len(cs) == 1 and not a.calls_matching(T + "NewerOptionMatcher::new")
             if ok:
                 t = cs[0][1]
+                fo = prim.origin_of_operand(fn, t.args[3]).strip()
+                ctx.ob("R5", "reference-follow-mode:parser", fo.k == "field" and fo.a == "follow" and any(x.k == "arg" and x.a["name"] == "config" for x in fo.walk()), "-newerXY hands %s to the matcher as the follow mode for its reference; oracle config.follow (the command line's -P/-H/-L)" % fo.fmt(), fn=fn, where=prim.site(fn, cs[0][0]), how="provenance slice")
                 xo = prim.origin_of_operand(fn, t.args[0])
                 yo = prim.origin_of_operand(fn, t.args[1])
                 ok = any(x.k == "var" and x.a.get("name") == "x_option" for x in xo.walk()) and any(x.k == "var" and x.a.get("name") == "y_option" for x in yo.walk())
